@@ -21,7 +21,13 @@
 (* changes (C17-d, C18-d).                                                 *)
 (***************************************************************************)
 EXTENDS Integers, Sequences, FiniteSets, TLC
-CONSTANTS NDVals, MaxCalls, Variant
+CONSTANTS
+    \* @type: Set(Str);
+    NDVals,
+    \* @type: Int;
+    MaxCalls,
+    \* @type: Str;
+    Variant
 
 None == "none"
 Source(op) ==
@@ -43,7 +49,17 @@ Effective(op, arg, attr, order) ==
            [] Source(op) = "arg-only"      -> arg
            [] OTHER                        -> None
 
-VARIABLES attr, order, memo, last, ncalls
+VARIABLES
+    \* @type: Str;
+    attr,
+    \* @type: Str;
+    order,
+    \* @type: { set: Bool, attr: Str, order: Str };
+    memo,
+    \* @type: { op: Str, arg: Str, attr: Str, order: Str, obs: Str };
+    last,
+    \* @type: Int;
+    ncalls
 vars == <<attr, order, memo, last, ncalls>>
 Init == /\ attr \in NDVals \cup {None}
         /\ order \in {"asc", "desc"}
@@ -75,4 +91,18 @@ HistoryFree == last.op # None => last.obs = Effective(last.op, last.arg, last.at
 \* an explicit argument always wins; a call never fails when a nodata value is available to it
 ArgWins == last.op # None /\ last.arg # None /\ last.op # "croo" /\ ~(last.op = "spi" /\ last.order = "desc") => last.obs = last.arg
 NoSpuriousError == last.op # None /\ last.obs = "ValueError" => (last.arg = None /\ last.attr = None) \/ (last.op = "spi" /\ last.order = "desc")
+
+(* ---- unbounded sessions (Apalache): HistoryFree is inductive ------------------------------------------- *)
+(* apalache-mc check --cinit=ConstInit --init=IndInit --inv=IndInv --length=1 : IndInv /\ Next => IndInv'     *)
+(* apalache-mc check --cinit=ConstInit --inv=IndInv --length=0                 : Init => IndInv               *)
+ConstInit == NDVals = {"7", "-1"} /\ MaxCalls = 1000000000 /\ Variant = "live"
+ConstInitMemo == NDVals = {"7", "-1"} /\ MaxCalls = 1000000000 /\ Variant = "memo"      \* negative control
+Vals == NDVals \cup {None}
+Orders == {"asc", "desc"}
+TypeOK == /\ attr \in Vals /\ order \in Orders
+          /\ memo \in [set : BOOLEAN, attr : Vals, order : Orders]
+          /\ last \in [op : Ops \cup {None}, arg : Vals, attr : Vals, order : Orders, obs : Vals \cup Orders \cup {"ValueError"}]
+          /\ ncalls \in 0..MaxCalls
+IndInv == TypeOK /\ HistoryFree /\ ArgWins /\ NoSpuriousError
+IndInit == IndInv
 =============================================================================
